@@ -772,6 +772,13 @@ package gohlslib
 //@   ensures result == nil ==> (len(i.Tracks) >= 1 && forall(k, (0 <= k && k < len(i.Tracks)) ==> i.Tracks[k] != nil))
 //@ end
 
+// read off mediacommon's parts.go: parts, their tracks and samples are freshly allocated objects
+//@ func ext:fmp4.Parts.Unmarshal
+//@   modifies *ps
+//@   ensures result == nil ==> forall(i, (0 <= i && i < len(*ps)) ==> ((*ps)[i] != nil && forall(j, (0 <= j && j < len((*ps)[i].Tracks)) ==> ((*ps)[i].Tracks[j] != nil
+//@        && forall(k, (0 <= k && k < len((*ps)[i].Tracks[j].Samples)) ==> (*ps)[i].Tracks[j].Samples[k] != nil)))))
+//@ end
+
 //@ func ext:url.ParseQuery
 //@   ensures result0 != nil ==> fresh(result0)
 //@ end
@@ -1207,16 +1214,57 @@ package gohlslib
 //@   ensures cap(p.chPartTrackProcessed) == clientMaxTracksPerStream
 //@ end
 
-//@ func clientStreamProcessorFMP4.processSegment
+//@ pred procOK(tp *clientTrackProcessorFMP4) := tp != nil && tp.track != nil && tp.track.track != nil && tp.track.track.ClockRate > 0
+//@ pred procsOK(p *clientStreamProcessorFMP4) := has(p.trackProcessors, p.leadingTrackID) && forall(k, has(p.trackProcessors, k) ==> procOK(p.trackProcessors[k]))
+//@ pred tcInv(tc *clientTimeConvFMP4) := tc.leadingTimeScale > 0 && (tc.ntpAvailable ==> tc.ntpClockRate > 0)
+//@ pred leadConvOK(p *clientStreamProcessorFMP4) := p.client.(*Client).leadingTimeConv != nil && is(p.client.(*Client).leadingTimeConv, *clientTimeConvFMP4)
+//@   && ref(p.client.(*Client).leadingTimeConv) != 0
+
+// The leading time converter is shared between the stream processors; its object invariant (non-zero time scale,
+// a bound NTP reference has a non-zero clock rate) is established by the processor that creates it and kept by
+// setNTP; the other processors rely on it (A-MON: assumed at every read of the shared pointer).
+//@ func Client.getLeadingTimeConv
+//@   props C13
+//@   requires (c.leadingTimeConv != nil && is(c.leadingTimeConv, *clientTimeConvFMP4)) ==> (ref(c.leadingTimeConv) != 0
+//@        && tcInv(c.leadingTimeConv.(*clientTimeConvFMP4)) && unheld(&c.leadingTimeConv.(*clientTimeConvFMP4).mutex))
+//@   ensures result == c.leadingTimeConv
+//@   ensures (result != nil && is(result, *clientTimeConvFMP4)) ==> (tcInv(result.(*clientTimeConvFMP4)) && unheld(&result.(*clientTimeConvFMP4).mutex))
+//@ end
+
+//@ func Client.setLeadingTimeConv
 //@   props C13
 //@   nosafety
 //@   noframe
+//@   modifies c.leadingTimeConv, clientTrack.startRTC
+//@   ensures c.leadingTimeConv == ts
+//@ end
+
+//@ func Client.waitLeadingTimeConv
+//@   props C13
+//@   nosafety
+//@ end
+
+//@ pred streamProcOK(p *clientStreamProcessorFMP4) := p.client != nil && is(p.client, *Client) && ref(p.client) != 0 && p.streamDownloader != nil && p.rp != nil
+//@   && len(p.clientStreamTracks) == len(p.init.Tracks)
+//@   && forall(i, (0 <= i && i < len(p.init.Tracks)) ==> (p.init.Tracks[i] != nil && p.init.Tracks[i].TimeScale != 0))
+//@   && forall(i, (0 <= i && i < len(p.clientStreamTracks)) ==> (p.clientStreamTracks[i] != nil && p.clientStreamTracks[i].track != nil && p.clientStreamTracks[i].track.ClockRate > 0))
+//@   && exists(i, 0 <= i && i < len(p.init.Tracks) && p.init.Tracks[i].ID == p.leadingTrackID)
+//@ pred fragTrackOK(t *fmp4.PartTrack) := t != nil && forall(k, (0 <= k && k < len(t.Samples)) ==> t.Samples[k] != nil)
+//@ pred fragOK(f *fmp4.Part) := f != nil && forall(j, (0 <= j && j < len(f.Tracks)) ==> fragTrackOK(f.Tracks[j]))
+//@ pred fragsOK(parts fmp4.Parts) := forall(i, (0 <= i && i < len(parts)) ==> fragOK(parts[i]))
+
+//@ func clientStreamProcessorFMP4.processSegment
+//@   props C13
+//@   noframe
 //@   nocallpre
 //@   requires cap(p.chPartTrackProcessed) >= 1
+//@   requires ctx != nil && streamProcOK(p) && (p.trackProcessors != nil ==> (procsOK(p) && leadConvOK(p)))
 //@   loop 1 invariant p.chPartTrackProcessed == old(p.chPartTrackProcessed)
+//@   loop 1 invariant streamProcOK(p) && p.trackProcessors != nil && procsOK(p) && leadConvOK(p) && fragsOK(parts)
 //@   loop 1 invariant partTrackCount == calls("clientTrackProcessorFMP4.push") - callsum("clientStreamProcessorFMP4.joinTrackProcessors", 2)
 //@   loop 1 invariant 0 <= partTrackCount && partTrackCount < cap(p.chPartTrackProcessed)
 //@   loop 2 invariant p.chPartTrackProcessed == old(p.chPartTrackProcessed)
+//@   loop 2 invariant streamProcOK(p) && p.trackProcessors != nil && procsOK(p) && leadConvOK(p) && fragsOK(parts) && part != nil
 //@   loop 2 invariant partTrackCount == calls("clientTrackProcessorFMP4.push") - callsum("clientStreamProcessorFMP4.joinTrackProcessors", 2)
 //@   loop 2 invariant 0 <= partTrackCount && partTrackCount < cap(p.chPartTrackProcessed)
 //@   atcall clientTrackProcessorFMP4.push calls("clientTrackProcessorFMP4.push") - callsum("clientStreamProcessorFMP4.joinTrackProcessors", 2) < cap(p.chPartTrackProcessed)
@@ -1244,10 +1292,14 @@ package gohlslib
 
 //@ func clientStreamProcessorFMP4.initializeTrackProcessors
 //@   props C13
-//@   nosafety
 //@   noframe
 //@   nocallpre
-//@   modifies p.trackProcessors, clientTrackProcessorFMP4.decodePayload, clientTrackProcessorFMP4.queue
+//@   requires ctx != nil && partTrack != nil && streamProcOK(p)
+//@   modifies p.trackProcessors, clientTrackProcessorFMP4.decodePayload, clientTrackProcessorFMP4.queue, Client.leadingTimeConv, clientTrack.startRTC
+//@   loop 1 invariant ri < len(p.clientStreamTracks) && streamProcOK(p) && p.trackProcessors != nil && leadConvOK(p)
+//@   loop 1 invariant forall(k, has(p.trackProcessors, k) ==> procOK(p.trackProcessors[k]))
+//@   loop 1 invariant forall(i, (0 <= i && i <= ri) ==> has(p.trackProcessors, p.init.Tracks[i].ID))
+//@   ensures result == nil ==> (p.trackProcessors != nil && procsOK(p) && leadConvOK(p) && streamProcOK(p))
 //@ end
 
 // ---------------------------------------------------------------------------------------
@@ -1529,6 +1581,7 @@ package gohlslib
 //@   loop 1 invariant nonIDRPresent == exists(i, 0 <= i && i <= ri && mod(au[i][0], 32) == 1)
 //@   loop 1 invariant old(s.pendingParamsChange) ==> s.pendingParamsChange
 //@   loop 1 invariant calls("muxerSegmentMPEGTS.writeH264") == 0 && calls("Muxer.rotateSegments") == 0 && calls("Muxer.createFirstSegment") == 0
+//@   loop 1 invariant s.pendingParamsChange ==> (old(s.pendingParamsChange) || exists(i, 0 <= i && i <= ri && (mod(au[i][0], 32) == 7 || mod(au[i][0], 32) == 8)))
 //@   loop 1 invariant track.firstRandomAccessReceived == old(track.firstRandomAccessReceived) && track.stream == old(track.stream) && track.stream.nextSegment == old(track.stream.nextSegment)
 //@   loop 1 invariant forall(i, (0 <= i && i < len(au)) ==> len(au[i]) >= 1)
 //@   ensures calls("muxerSegmentMPEGTS.writeH264") <= 1 && calls("Muxer.rotateSegments") <= 1 && calls("Muxer.createFirstSegment") <= 1
@@ -1540,6 +1593,9 @@ package gohlslib
 //@   ensures (calls("muxerSegmentMPEGTS.writeH264") == 1 && calls("Muxer.rotateSegments") == 1) ==> callarg("Muxer.rotateSegments", 0, 1) == timestampToDuration(callarg("muxerSegmentMPEGTS.writeH264", 0, 3), track.ClockRate)
 //@   ensures (calls("muxerSegmentMPEGTS.writeH264") == 1 && calls("Muxer.rotateSegments") == 0 && idrIn(au) && old(track.stream.nextSegment) != nil) ==>
 //@        timestampToDuration(callarg("muxerSegmentMPEGTS.writeH264", 0, 3), track.ClockRate) - old(asM(track.stream.nextSegment).startDTS) < s.segmentMinDuration
+//@   ensures (calls("muxerSegmentMPEGTS.writeH264") == 1 && calls("Muxer.rotateSegments") == 1) ==>
+//@        (timestampToDuration(callarg("muxerSegmentMPEGTS.writeH264", 0, 3), track.ClockRate) - old(asM(track.stream.nextSegment).startDTS) >= s.segmentMinDuration
+//@         || old(s.pendingParamsChange) || exists(i, 0 <= i && i < len(au) && (mod(au[i][0], 32) == 7 || mod(au[i][0], 32) == 8)))
 //@   ensures calls("muxerSegmentMPEGTS.writeH264") == 1 ==> (callarg("muxerSegmentMPEGTS.writeH264", 0, 1) == track && callarg("muxerSegmentMPEGTS.writeH264", 0, 2) == pts
 //@        && callarg("muxerSegmentMPEGTS.writeH264", 0, 3) <= pts && callarg("muxerSegmentMPEGTS.writeH264", 0, 4) == au)
 //@   ensures result == nil ==> (calls("muxerSegmentMPEGTS.writeH264") == 1 || (!idrIn(au) && (!old(track.firstRandomAccessReceived) || !exists(i, 0 <= i && i < len(au) && mod(au[i][0], 32) == 1))))
@@ -1635,4 +1691,11 @@ package gohlslib
 //@   loop 2 invariant forall(k, (0 <= k && k <= ri) ==> reportsTrack(p, tracks[k], p.init.Tracks[k]))
 //@   atcall clientStreamDownloader.setTracks len(arg2) == len(p.init.Tracks) && len(arg2) <= clientMaxTracksPerStream && forall(k, (0 <= k && k < len(arg2)) ==> reportsTrack(p, arg2[k], p.init.Tracks[k]))
 //@   ensures result != nil
+//@ end
+
+// starts the runnable in its own goroutine (outside the sequential verification conditions)
+//@ func clientRoutinePool.add
+//@   props C13
+//@   nosafety
+//@   noframe
 //@ end
